@@ -43,12 +43,12 @@ else
   if [ -z "$filter" ]; then filter=$(grep -o '^+++ b/.*/src/.*/[a-z0-9_]*\.rs' "$src/demo.diff" | head -1 | sed 's#.*/##;s#\.rs##'); fi
   extra2="$extra"; f2="$filter"
 fi
-cargo test -p "$crate" --offline -j 10 --no-fail-fast $extra2 $f2 > /tmp/confirm-demo-with.log 2>&1
+cargo test -p "$crate" --offline -j 10 --no-fail-fast $extra2 ${DEMO_FEATURES:+--features $DEMO_FEATURES} $f2 > /tmp/confirm-demo-with.log 2>&1
 with=$(grep -c '^test .* FAILED' /tmp/confirm-demo-with.log)
 withok=$(grep -c '^test .* ok' /tmp/confirm-demo-with.log)
 # 3. demo without the patch: must pass
 git apply -R /tmp/confirm-patch-$name.diff 2>>"$log" || { echo "RESULT $name cannot-revert-patch"; git checkout -q -- .; git clean -fdq -e target; exit 1; }
-cargo test -p "$crate" --offline -j 10 --no-fail-fast $extra2 $f2 > /tmp/confirm-demo-without.log 2>&1
+cargo test -p "$crate" --offline -j 10 --no-fail-fast $extra2 ${DEMO_FEATURES:+--features $DEMO_FEATURES} $f2 > /tmp/confirm-demo-without.log 2>&1
 without_fail=$(grep -c '^test .* FAILED' /tmp/confirm-demo-without.log)
 without_ok=$(grep -c '^test .* ok' /tmp/confirm-demo-without.log)
 git checkout -q -- . ; git clean -fdq -e target
